@@ -8,15 +8,21 @@ COMMANDS = ["create", "create_sf", "verify", "verifydh", "diff", "info", "infosf
 
 
 def base_world(rnd):
-    tree = {"a.txt": "alpha", "s/b.txt": "beta", "s/t/c.txt": "gamma", "s/t/u/d.txt": "delta", "x/e.txt": "eps"}
+    tree = {"a.txt": "alpha", "s/b.txt": "beta", "s/t/c.txt": "gamma", "s/t/u/d.txt": "delta", "x/e.txt": "eps", ".px/cam/f.txt": "phi"}
     ops = []
     t = [0]
+
+    # a nested history may live in a folder that the enclosing history ignores, or below a dot-folder: it is still a
+    # history in scope, and its chain is checked like any other
+    pats = rnd.sample(["x", "s", "t", "u", ".px", "x/", "cam", "s/t"], rnd.randint(1, 2)) if rnd.random() < 0.35 else []
 
     def create(at):
         t[0] += 1
         ops.append({"op": "create", "at": at, "h": gen.fmt_subset(rnd, (1, 2)), "now": "2026-03-01 12:00:%02d" % t[0]})
+        if pats and rnd.random() < 0.8:
+            ops[-1]["i"] = pats
 
-    nested = rnd.sample(["s", "s/t", "s/t/u", "x"], rnd.randint(0, 3))
+    nested = rnd.sample(["s", "s/t", "s/t/u", "x", ".px/cam"], rnd.randint(0, 3))
     nested.sort(key=lambda d: -d.count("/")) if rnd.random() < 0.5 else rnd.shuffle(nested)
     for d in nested:
         for _ in range(rnd.randint(1, 2)):
